@@ -1722,14 +1722,6 @@ class Model:
         """operand class of a resolved op when it belongs to TAIL_ONLY (decided WITHOUT touching the state), else None"""
         name, want, a = op
         try:
-            if name in ('app', 'ins', 'rep') and a[1] is a[0]:
-                return 'insert-into-self'
-            if name == 'substringData' and a[2] >= 4096 and len(a[0].data) < 4095 and a[1] <= len(a[0].data):
-                return 'count-huge'
-            if name == 'clone':
-                n = a[0]
-                if n.t in (TEXT, CDATA, COMMENT, PI, ENTREF) and n.parent is not None and n.parent.kids[0] is n:
-                    return 'leaf-firstchild-source'
             if name == 'rename':
                 doc, n, ns, qname = a
                 if n.t == ATTR and n.docnode() is doc and n.owner is not None and not (ns is None and not n.l2):
@@ -1863,7 +1855,9 @@ UD_KEYS = ['k1', 'k2', 'é']
 
 # classes of operands that are only generated as the LAST operation of a script: the real library is known to
 # break there (DESIGN section 5) and nothing can be compared afterwards
-TAIL_ONLY = {'attr-map-out-of-order', 'illegal-owned-attr', 'own-attribute', 'insert-into-self', 'count-huge', 'illegal-ns-aware-node', 'leaf-firstchild-source', 'after-element-ending-in-text'}
+# ('insert-into-self', 'count-huge' and 'leaf-firstchild-source' were in this set until the defects behind them were repaired in
+#  /repo: f2fc716, 0051c70, 9a920c0.  They are ordinary operand classes now and stay pinned in the check's special cases.)
+TAIL_ONLY = {'attr-map-out-of-order', 'illegal-owned-attr', 'own-attribute', 'illegal-ns-aware-node', 'after-element-ending-in-text'}
 
 
 # Deviations from the DOM text that the unchanged tree is known to have (notes/C13.md).  The GENERATOR follows them, so that
@@ -1885,6 +1879,7 @@ class Gen:
         self.tags = set()
         self.views = views
         self.nreal = 0
+        self.next_v = 0
 
     # ---------------------------------------------------------------- helpers
     def newh(self):
@@ -1982,9 +1977,23 @@ class Gen:
             w['create'] = 3; w['release'] = 10; w['clone'] = 1; w['remove'] = 10
         if nlive < 8:
             w['create'] = 40
+        if self.views:
+            w.update(mkview=4 if len(self.m.views) >= 3 else 25, viewquery=30 if self.m.views else 0, rgset=5 if self.live_views('R') else 0)
+            w['query'] = 2; w['newdoc'] = 0; w['ud'] = 1; w['cdata'] = 14; w['split'] = 4; w['normalize'] = 3
         kinds = list(w)
         k = r.choices(kinds, [w[x] for x in kinds])[0]
-        return getattr(self, 'g_' + k)()
+        if not self.views:
+            return getattr(self, 'g_' + k)()
+        passive = k in ('query', 'viewquery', 'mkview', 'rgset', 'create', 'ud', 'bind')
+        if not passive:
+            self._settle_iterators()
+            if self.stopped:
+                return None
+        n0 = self.nreal
+        e = getattr(self, 'g_' + k)()
+        if not passive and self.nreal > n0 and not self.stopped:
+            self.probe_views(limit=r.choice([1, 2, 3]))
+        return e
 
     def g_newdoc(self):
         if len(self.m.docs) >= self.max_docs:
@@ -2047,6 +2056,8 @@ class Gen:
             c = self.pick(lambda n: n.t == FRAG and n.docnode() is d)
             if c is not None:
                 return c
+        if x < 0.775:    # the node itself
+            return p
         if x < 0.80:     # ancestor (not self)
             anc = []
             a = p.parent
@@ -2332,8 +2343,8 @@ class Gen:
             return self.emit(k, None, [n.h, self._offset(n), self._count(n), self.data() or ''])
         if k == 'substringData':
             c = self._count(n)
-            if c >= 4096 and len(n.data) < 4095:
-                c = 4095
+            if self.r.random() < 0.05:
+                c = self.r.choice([4096, 5000, 1 << 20])
             return self.emit(k, None, [n.h, self._offset(n), c])
         if k == 'setData':
             return self.emit(k, None, [n.h, self.data()])
@@ -2395,6 +2406,12 @@ class Gen:
 
     def g_release(self):
         r = self.r
+        if self.views:
+            n = self.pick(lambda n: n.parent is None and n.t not in (DOC, DOCTYPE) and not (n.t == ATTR and n.owner is not None)
+                          and not any(v.refers_to(n) for v in self.m.views.values()))
+            if n is None:
+                return None
+            return self.emit('release', None, [n.h])
         x = r.random()
         if x < 0.75:
             n = self.pick(lambda n: n.parent is None and n.t not in (DOC, DOCTYPE) and not (n.t == ATTR and n.owner is not None))
@@ -2414,41 +2431,244 @@ class Gen:
         idx = [i for i, k in enumerate(n.kids) if k.h is None]
         return self.emit('bind', self.newh(), [n.h, 'c', r.choice(idx)])
 
+    # ---------------------------------------------------------------- views (C14)
+    def newv(self):
+        v = self.next_v
+        self.next_v += 1
+        return v
+
+    def live_views(self, kind=None):
+        return [(vid, v) for vid, v in sorted(self.m.views.items()) if kind is None or v.kind == kind]
+
+    def _settle_iterators(self):
+        """An iterator that has never returned a node makes DOMNodeIteratorImpl::removeNode dereference a null pointer on the
+        next removeChild anywhere in its document (observed defect, notes/C14.md): step or detach such iterators first."""
+        for vid, v in self.live_views('I'):
+            if v.ref is None and not v.detached:
+                self.emit('it', None, [vid, 'next'])
+                if self.stopped:
+                    return
+                v2 = self.m.views.get(vid)
+                if v2 is not None and v2.ref is None and not v2.detached:
+                    self.emit('it', None, [vid, 'detach'])
+
+    def g_mkview(self):
+        r = self.r
+        if len(self.m.views) >= 8:
+            # drop one
+            vid, v = r.choice(self.live_views())
+            if v.kind == 'I':
+                return self.emit('it', None, [vid, 'release'])
+            if v.kind == 'W':
+                return self.emit('tw', None, [vid, 'release'])
+            if v.kind == 'R':
+                return self.emit('rg', None, [vid, 'release'])
+            if v.kind == 'L':
+                return self.emit('list', None, [vid, 'drop'])
+            return self.emit('map', None, [vid, 'drop'])
+        k = r.choices(['I', 'W', 'R', 'L', 'M'], [22, 20, 30, 20, 8])[0]
+        vid = self.newv()
+        if k in 'IW':
+            root = self.pick(lambda n: n.t in (ELEMENT, DOC, FRAG) or r.random() < 0.05)
+            if root is None:
+                return None
+            show = r.choice([0xFFFF, 0xFFFF, 0xFFFF, 1, 1 | 4, 4 | 8, 0xFFFF & ~1, 128 | 1, 0xFFFF & ~4])
+            fk = r.choice([0, 0, 0, 1, 2, 3])
+            e = self.emit('mkIter' if k == 'I' else 'mkWalker', None, [vid, root.h, show, fk, 1])
+            if k == 'I' and e is not None:
+                self._settle_iterators()
+            return e
+        if k == 'R':
+            d = self.pick_doc()
+            if d is None:
+                return None
+            e = self.emit('mkRange', None, [vid, d.h])
+            if e is not None and not self.stopped:
+                self.g_rgset(vid)
+            return e
+        if k == 'L':
+            x = r.random()
+            if x < 0.3:
+                n = self.pick(lambda n: n.t in (ELEMENT, DOC, FRAG))
+                return self.emit('mkList', None, [vid, 'children', n.h]) if n else None
+            n = self.pick(lambda n: n.t in (ELEMENT, DOC))
+            if n is None:
+                return None
+            if x < 0.7:
+                return self.emit('mkList', None, [vid, 'tag', n.h, r.choice(['*', 'a', 'b', 'p:a', 'c', 'q:b'])])
+            return self.emit('mkList', None, [vid, 'tagNS', n.h, r.choice(['*', 'urn:u1', 'urn:u2', None]), r.choice(['*', 'a', 'b', 'c'])])
+        n = self.pick(lambda n: n.t == ELEMENT)
+        return self.emit('mkMap', None, [vid, n.h]) if n else None
+
+    def _boundary(self, doc):
+        """a (container, offset) pair inside doc; mostly legal, sometimes out of range"""
+        r = self.r
+        c = self.pick(lambda n: n.docnode() is doc and n.t in (ELEMENT, TEXT, CDATA, COMMENT, PI, DOC, FRAG) or (n is doc))
+        if c is None:
+            return None
+        ln = node_length(c)
+        x = r.random()
+        if x < 0.05:
+            o = ln + r.choice([1, 5])
+        elif x < 0.3:
+            o = 0
+        elif x < 0.5:
+            o = ln
+        else:
+            o = r.randrange(ln + 1)
+        return c, o
+
+    def g_rgset(self, vid=None):
+        r = self.r
+        if vid is None:
+            c = self.live_views('R')
+            if not c:
+                return None
+            vid, v = r.choice(c)
+        v = self.m.views[vid]
+        k = r.choices(['setStart', 'setEnd', 'setStartBefore', 'setStartAfter', 'setEndBefore', 'setEndAfter', 'selectNode', 'selectNodeContents',
+                       'collapse', 'both'], [14, 14, 5, 5, 5, 5, 10, 10, 4, 28])[0]
+        if k in ('setStart', 'setEnd', 'both'):
+            b = self._boundary(v.doc)
+            if b is None:
+                return None
+            if k == 'both':
+                b2 = self._boundary(v.doc)
+                if b2 is None:
+                    return None
+                try:
+                    if _root_of(b[0]) is _root_of(b2[0]) and cmp_points(b[0], min(b[1], node_length(b[0])), b2[0], min(b2[1], node_length(b2[0]))) > 0:
+                        b, b2 = b2, b
+                except Undecided:
+                    pass
+                self.emit('rg', None, [vid, 'setStart', b[0].h, b[1]])
+                if self.stopped:
+                    return None
+                return self.emit('rg', None, [vid, 'setEnd', b2[0].h, b2[1]])
+            return self.emit('rg', None, [vid, k, b[0].h, b[1]])
+        if k == 'collapse':
+            return self.emit('rg', None, [vid, 'collapse', r.choice([0, 1])])
+        n = self.pick(lambda n: n.docnode() is v.doc and (n.parent is not None or r.random() < 0.1) and n.t != DOC) or self.pick()
+        if n is None:
+            return None
+        return self.emit('rg', None, [vid, k, n.h])
+
+    def g_query(self):          # overrides the C13 version when views exist
+        r = self.r
+        if self.views and self.m.views and r.random() < 0.85:
+            return self.g_viewquery()
+        a, b = self.pick(), self.pick()
+        if a is None:
+            return None
+        k = r.choice(['eq', 'eq', 'same', 'cmp', 'cmp'])
+        if k == 'eq' and r.random() < 0.5:
+            b = self.pick(lambda n: n.t == a.t) or b
+        if k == 'cmp' and r.random() < 0.6:
+            b = self.pick(lambda n: n.root() is a.root()) or b
+        return self.emit(k, None, [a.h, b.h])
+
+    def g_viewquery(self, vid=None):
+        r = self.r
+        if vid is None:
+            vid, v = r.choice(self.live_views())
+        else:
+            v = self.m.views[vid]
+        if v.kind == 'I':
+            return self.emit('it', None, [vid, r.choices(['next', 'prev', 'root', 'detach'], [50, 40, 3, 1])[0]])
+        if v.kind == 'W':
+            k = r.choices(['parent', 'first', 'last', 'prevSib', 'nextSib', 'prev', 'next', 'cur', 'set'], [8, 12, 8, 10, 12, 15, 20, 5, 10])[0]
+            if not _tw_inside(v) and k not in ('cur', 'set'):
+                k = 'set'
+            if k == 'set':
+                n = self.pick(lambda n: _in_subtree(n, v.root) and n.t != ATTR and (v.accept(n) == FILTER_ACCEPT or r.random() < 0.1))
+                if n is None:
+                    return None
+                return self.emit('tw', None, [vid, 'set', n.h])
+            return self.emit('tw', None, [vid, k])
+        if v.kind == 'L':
+            k = r.choices(['all', 'len', 'item'], [50, 20, 30])[0]
+            if k == 'item':
+                ln = len(v.nodes())
+                return self.emit('list', None, [vid, 'item', r.choice([0, ln, max(0, ln - 1), r.randrange(ln + 2)])])
+            return self.emit('list', None, [vid, k])
+        if v.kind == 'M':
+            k = r.choices(['names', 'len', 'get', 'getNS'], [50, 20, 20, 10])[0]
+            if k == 'get':
+                return self.emit('map', None, [vid, 'get', self._attr_name_for(v.el)])
+            if k == 'getNS':
+                ns, qn = r.choice(NS_GOOD)
+                return self.emit('map', None, [vid, 'getNS', ns, qn.split(':')[-1]])
+            return self.emit('map', None, [vid, k])
+        # range
+        k = r.choices(['get', 'toString', 'cac', 'cmp', 'set', 'cloneRange', 'content', 'detach'], [40, 12, 6, 10, 18, 2, 11, 1])[0]
+        if k == 'set':
+            return self.g_rgset(vid)
+        if k == 'cmp':
+            others = self.live_views('R')
+            ov, _ = r.choice(others)
+            return self.emit('rg', None, [vid, 'cmp', r.randrange(4), ov])
+        if k == 'cloneRange':
+            if len(self.m.views) >= 8:
+                return None
+            return self.emit('rg', None, [vid, 'cloneRange', self.newv()])
+        if k == 'content':
+            return self.g_rgcontent(vid)
+        return self.emit('rg', None, [vid, k])
+
+    def g_rgcontent(self, vid):
+        r = self.r
+        v = self.m.views[vid]
+        k = r.choices(['delete', 'extract', 'cloneContents', 'insertNode', 'surround'], [20, 25, 25, 18, 12])[0]
+        self._settle_iterators()
+        if self.stopped:
+            return None
+        if k in ('extract', 'cloneContents'):
+            return self.emit('rg', self.newh(), [vid, k])
+        if k == 'delete':
+            return self.emit('rg', None, [vid, k])
+        if k == 'insertNode':
+            n = self.pick(lambda n: n.docnode() is v.doc and n.parent is None and n.t in (ELEMENT, TEXT, COMMENT, PI, CDATA, FRAG) or r.random() < 0.05)
+        else:
+            n = self.pick(lambda n: n.docnode() is v.doc and n.t == ELEMENT and not n.kids and n.parent is None or r.random() < 0.05)
+        if n is None:
+            return None
+        return self.emit('rg', None, [vid, k, n.h])
+
+    g_rgset_ = None
+
+    def probe_views(self, limit=3):
+        """after a mutation: ask some of the live views what they see now"""
+        r = self.r
+        vs = self.live_views()
+        r.shuffle(vs)
+        n = 0
+        for vid, v in vs:
+            if self.stopped or n >= limit:
+                break
+            if vid not in self.m.views:
+                continue
+            if v.kind == 'R':
+                if v.detached:
+                    continue
+                self.emit('rg', None, [vid, 'get'])
+            elif v.kind == 'L':
+                self.emit('list', None, [vid, 'all'])
+            elif v.kind == 'M':
+                self.emit('map', None, [vid, 'names'])
+            elif v.kind == 'I':
+                if v.detached:
+                    continue
+                self.emit('it', None, [vid, r.choice(['next', 'prev'])])
+            else:
+                self.emit('tw', None, [vid, r.choice(['cur', 'next', 'prev', 'parent', 'nextSib', 'prevSib', 'first', 'last']) if _tw_inside(v) else 'cur'])
+            n += 1
+
     # ---------------------------------------------------------------- tail operations (known-defect classes)
     def tail(self):
         """one of the operand classes behind which the real library is known to be broken (DESIGN section 5 and notes/C13.md)"""
         r = self.r
         x = r.random()
-        if x < 0.35:
-            # (a DocumentFragment with children inserted into itself never terminates: pinned special case of the check)
-            e = self.pick(lambda n: n.t == ELEMENT or (n.t == FRAG and not n.kids))
-            if e is None:
-                return None
-            if r.random() < 0.5 or not e.kids:
-                return self.emit('app', None, [e.h, e.h], tail=True)
-            k = [c for c in e.kids if c.h is not None]
-            if not k:
-                return self.emit('app', None, [e.h, e.h], tail=True)
-            return self.emit('ins', None, [e.h, e.h, r.choice(k).h], tail=True)
-        if x < 0.55:
-            n = self.pick(lambda n: n.t in (TEXT, CDATA, COMMENT) and len(n.data) < 4000)
-            if n is None:
-                return None
-            return self.emit('substringData', None, [n.h, 0, r.choice([4096, 5000, 1 << 20])], tail=True)
-        if x < 0.75:
-            # clone of a leaf node that is a first child, then made a non-first child somewhere
-            n = self.pick(lambda n: n.t in (TEXT, CDATA, COMMENT, PI, ENTREF) and n.parent is not None and n.parent.kids[0] is n)
-            if n is None:
-                return None
-            h = self.newh()
-            e = self.emit('clone', h, [n.h, 1], tail=True)
-            if e is None or self.stopped:
-                return e
-            p = self.pick(lambda q: q.t in (ELEMENT, FRAG) and q.kids and q.docnode() is n.docnode() and not q.ro)
-            if p is None:
-                return e
-            return self.emit('app', None, [p.h, h], tail=True)
-        if x < 0.87:
+        if x < 0.40:
             n = self.pick(lambda n: n.t in (TEXT, CDATA) and n.parent is not None and n.parent.t == ELEMENT and self.m._under_docelement(n)
                           and self.m.tail_class(('wholeText', None, [n])) is not None)
             if n is None:
@@ -2456,12 +2676,12 @@ class Gen:
             if r.random() < 0.4:
                 return self.emit('wholeText', None, [n.h], tail=True)
             return self.emit('replaceWholeText', self.newh(), [n.h, r.choice(['Z', 'tail'])], tail=True)
-        if x < 0.91:
+        if x < 0.65:
             a = self.pick(lambda n: n.t == ATTR and n.owner is not None and n.owner.h is not None)
             if a is None:
                 return None
             return self.emit('setAttrNode', self.newh(), [a.owner.h, a.h], tail=True)
-        if x < 0.95:
+        if x < 0.80:
             el = self.pick(lambda n: n.t == ELEMENT and n.mapdirty and n.attrs)
             if el is None:
                 return None
@@ -2565,8 +2785,6 @@ def exh_ops(reduced):
     C = [0, 1, 2, 3, 4, 5, 6, 7, 10] if not reduced else [1, 2, 3, 4, 7]
     for p in P:
         for c in C:
-            if p == 7 and c == 7:
-                continue        # a non-empty fragment appended to itself never returns (pinned special case of the check)
             ops.append(('app', None, [p, c]))
     for p in ([1, 2, 4] if not reduced else [1, 2]):
         for c in ([2, 3, 4, 5, 6, 7] if not reduced else [2, 3, 4]):
@@ -3514,12 +3732,109 @@ def _rg_nodes_touched(v):
     return out
 
 
-def _rg_insert(self, v, new, e):
-    raise Undecided('insertNode not modelled yet')
+def _split_text(self, n, off):
+    new = self.mk(n.t, n.doc, None, n.data[off:])
+    new.origin = 'split'
+    if n.parent is not None:
+        self._attach(n.parent, new, n.next())
+    n.data = n.data[:off]
+    for vw in self.views.values():
+        vw.text_split(self, n, new, off)
+    return new
+
+
+def _rg_insert(self, v, new, e, surround=False):
+    """Range.insertNode (DOM L2 Range 2.9)"""
+    sc, so = v.sc, v.so
+    errs = set()
+    if new.t in (ATTR, ENTITY, NOTATION, DOC):
+        errs.add(INVALID_NODE_TYPE)
+    if sc.t in (COMMENT, PI):
+        raise Undecided('insertNode into a comment / processing instruction')
+    if sc.t in (TEXT, CDATA):
+        parent = sc.parent
+        if parent is None:
+            raise Undecided('insertNode into a parentless text node')
+        if not (0 < so < len(sc.data)):
+            raise Undecided('insertNode at the edge of a text node (whether the node is split there is not specified)')
+    else:
+        parent = sc
+    if new.docnode() is not v.doc:
+        errs.add(WRONG_DOC)
+    ref_now = None if sc.t in (TEXT, CDATA) else (sc.kids[so] if so < len(sc.kids) else None)
+    ie = self._insert_errors(parent, new, None)
+    errs |= ie
+    if parent.ro or sc.ro:
+        raise Undecided('insertNode into read-only content')
+    if new.is_ancestor_or_self_of(sc):
+        errs.add(HIERARCHY)
+    if errs:
+        e.codes = errs
+        e.cls = 'insertNode-illegal'
+        return e
+    if new is ref_now:
+        raise Undecided('insertNode of the node that already sits at the start')
+    if new.t == FRAG and (sc in new.kids):
+        raise Undecided('insertNode of a fragment holding the container')
+    if sc.t in (TEXT, CDATA):
+        ref = _split_text(self, sc, so)
+        e.cls = 'insertNode-text'
+    else:
+        ref = ref_now
+        e.cls = 'insertNode-container'
+    self._do_insert(parent, new, ref)
+    return e
 
 
 def _rg_surround(self, v, new, e):
-    raise Undecided('surroundContents not modelled yet')
+    sc, so, ec, eo = v.sc, v.so, v.ec, v.eo
+    errs = set()
+    if new.t in (ATTR, ENTITY, DOCTYPE, NOTATION, DOC, FRAG):
+        errs.add(INVALID_NODE_TYPE)
+    if new.docnode() is not v.doc:
+        errs.add(WRONG_DOC)
+    if COMMENT in (sc.t, ec.t) or PI in (sc.t, ec.t):
+        raise Undecided('surroundContents with a boundary inside a comment / processing instruction')
+    rs = sc.parent if sc.t in (TEXT, CDATA) else sc
+    re_ = ec.parent if ec.t in (TEXT, CDATA) else ec
+    if rs is not re_:
+        errs.add(BAD_BOUNDARYPOINTS)
+    if errs:
+        e.codes = errs
+        e.cls = 'surround-illegal'
+        return e
+    if new.kids or new.parent is not None:
+        raise Undecided('surroundContents with a new parent that has children or a parent')
+    if new.t != ELEMENT:
+        raise Undecided('surroundContents with a non-element parent')
+    if rs is None or _root_of(sc) is not _root_of(ec):
+        raise Undecided('surroundContents over parentless text')
+    if new.is_ancestor_or_self_of(sc):
+        e.codes = {HIERARCHY}
+        return e
+    if sc.t in (TEXT, CDATA) and (not (0 < so < len(sc.data)) or (sc is ec)):
+        # after extractContents the start sits at an edge of the (shortened) text node, where splitting is not specified
+        raise Undecided('surroundContents starting inside text')
+    if any(x.ro for x in _rg_nodes_touched(v)) or rs.ro:
+        raise Undecided('surroundContents over read-only content')
+    if KID_OK.get(rs.t) is None or ELEMENT not in KID_OK[rs.t]:
+        e.codes = {HIERARCHY}
+        return e
+    if rs.t == DOC:
+        raise Undecided('surroundContents directly under a document')
+    frag = _rg_contents(self, v, 'extract', Exp())
+    e2 = Exp()
+    _rg_insert(self, v, new, e2)
+    if e2.codes:
+        raise Undecided('surroundContents: insertion refused')
+    for k in list(frag.kids):
+        frag.kids.remove(k); k.parent = None
+        self._attach(new, k, None)
+    v.sc = v.ec = new.parent
+    v.so = new.index()
+    v.eo = v.so + 1
+    e.cls = 'surround'
+    return e
 
 
 Model.op_mkIter = _op_mkIter
